@@ -1,10 +1,14 @@
 #!/bin/bash
 # run the repository's pinned baseline (guard OFF) and compare with BASELINE.json stable_pass
-cd /repo && /venv/bin/python -m pytest -ra -q -p no:cacheprovider --timeout=900 --continue-on-collection-errors --junitxml=/tmp/chmpy_baseline.junit.xml > /tmp/chmpy_baseline.log 2>&1
+# optional argument: the tree to test (default /repo; a scratch worktree when seeded changes are evaluated in parallel)
+R=${1:-/repo}
+export J=/tmp/chmpy_baseline.$(echo $R | tr / _).junit.xml
+cd $R && PYTHONPATH=$R/src /venv/bin/python -m pytest -ra -q -p no:cacheprovider --timeout=900 --continue-on-collection-errors --junitxml=$J > ${J%.junit.xml}.log 2>&1
 /venv/bin/python - <<'PY'
+import os
 import json, xml.etree.ElementTree as ET
 b = json.load(open('/root/.vp/BASELINE.json'))
-t = ET.parse('/tmp/chmpy_baseline.junit.xml')
+t = ET.parse(os.environ['J'])
 res = {}
 for tc in t.iter('testcase'):
     name = tc.get('classname') + '::' + tc.get('name')
